@@ -281,7 +281,18 @@ def serde_scripts(d, rng, pay, v, thorough):
 FORMS = ["full_simple", "uninit_simple", "full_out", "uninit_out"]
 
 
-def scripts_for(d, rng, tier):
+def scripts_for(d, rng, tier, no_out=False):
+    global FORMS
+    saved = FORMS
+    if no_out:
+        FORMS = ["full_simple", "uninit_simple"]
+    try:
+        return _scripts_for(d, rng, tier, no_out)
+    finally:
+        FORMS = saved
+
+
+def _scripts_for(d, rng, tier, no_out=False):
     pay = Pay()
     nv = len(d["variants"])
     res = []
@@ -298,7 +309,7 @@ def scripts_for(d, rng, tier):
         res.append(chain_script(d, rng, pay, c or ["full_simple"], start=rng.choice(["new", "from_unpacked"]),
                                 finish=rng.choice(["unpack", "drop"])))
     res.append(chain_script(d, rng, pay, ["uninit_simple"], start="new_uninit", finish="drop"))
-    res.append(chain_script(d, rng, pay, ["uninit_out"], start="from_unpacked_uninit", finish="unpack"))
+    res.append(chain_script(d, rng, pay, ["uninit_simple" if no_out else "uninit_out"], start="from_unpacked_uninit", finish="unpack"))
     for v in range(1, nv + 1):
         for _ in range(2 if tier == "quick" else 8):
             res.append(mutate_script(d, rng, pay, v))
@@ -595,10 +606,24 @@ def pipeline(tier, seed):
             failing = sorted({int(m) for m in re.findall(r"gen/d(\d+)_(?:gen|drv)\.rs", text)})
             if not failing:
                 raise ToolError("the lab does not compile and no generated module is named:\n" + text[-4000:])
+            drop = []
             for did in failing:
                 first = re.search(r"(error[^\n]*\n[^\n]*gen/d%d_(?:gen|drv)\.rs[^\n]*)" % did, text)
-                res["compile_failures"].append({"did": did, "name": defs[did - 1]["name"], "definition": defs[did - 1],
-                                                "error": first.group(1)[:600] if first else ""})
+                in_gen = re.search(r"gen/d%d_gen\.rs" % did, text) is not None
+                out_field = re.search(r"no field `\w+` on type `[\w:]*Record\d+AndUnpackedOut", text) is not None \
+                    and re.search(r"gen/d%d_drv\.rs" % did, text) is not None
+                entry = {"did": did, "name": defs[did - 1]["name"], "definition": defs[did - 1],
+                         "error": first.group(1)[:600] if first else ""}
+                if not in_gen and out_field and not defs[did - 1].get("no_out"):
+                    # the generated module compiles but its and-out result type lacks a removed field
+                    # (C05); go on with a degraded driver so that the other forms are still exercised
+                    entry["kind"] = "and-out-type-lacks-removed-field"
+                    defs[did - 1]["no_out"] = True
+                else:
+                    entry["kind"] = "does-not-compile"
+                    drop.append(did)
+                res["compile_failures"].append(entry)
+            failing = drop
             keep = [d for d in defs if d["did"] not in failing and d["did"] in built]
             report, built = generate_lab(keep, out_dir)
             bins, errs = build_lab()
@@ -626,7 +651,7 @@ def pipeline(tier, seed):
                         nmodel += 1
                         scripts.append({"sid": len(scripts) + 1, "did": did, "capsel": rng.choice([0, 0, 1, 2]), "ops": sc})
                 continue
-            for ops in scripts_for(d, rng, tier):
+            for ops in scripts_for(d, rng, tier, no_out=bool(defs[did - 1].get("no_out"))):
                 scripts.append({"sid": len(scripts) + 1, "did": did, "capsel": rng.choice([0, 0, 1, 2]), "ops": ops})
         res["model_scripts"] = nmodel
         res["model_drift"] = drift
